@@ -75,7 +75,16 @@ def main(argv=None):
     s.add_argument('--only', default=None)
     s.add_argument('--root', default=os.environ.get('VT_ROOT', '/repo'))
     s.add_argument('-v', action='store_true')
+    sh = sub.add_parser('show')     # print the normalised form of a module (debugging aid)
+    sh.add_argument('module')
+    sh.add_argument('--root', default=os.environ.get('VT_ROOT', '/repo'))
     args = ap.parse_args(argv)
+    if args.cmd == 'show':
+        import ast as _ast
+        m = Repo(args.root).mod(args.module)
+        print('# %s: %d helper call(s) inlined' % (m.relpath, m.inlined_calls))
+        print(_ast.unparse(m.tree))
+        return 0
 
     if args.cmd == 'check':
         pid = args.pid.upper()
